@@ -479,7 +479,7 @@ def step_ops(peer, rng, weights=None):
     elif r < 0.96:
         peer.send("status")
     elif r < 0.975:
-        peer.send("key %d %d" % (rng.choice([0, 0, 1]), rng.choice([0, 0, 7])))
+        peer.send("key %d %d" % (rng.choice([0, 0, 1]), rng.choice([0, 0, 7, 2 ** 32, 2 ** 61])))
     elif r < 0.99:
         peer.send("enc %d" % rng.randrange(2))
     else:
@@ -496,7 +496,8 @@ def link_ops(peer, rng):
             k = rng.random()
             peer.send("key %d %d" % ((ediv, rnd) if k < 0.7 else (ediv ^ 1, rnd) if k < 0.85 else (ediv, rnd + 1)))
         else:
-            peer.send("key %d %d" % (rng.choice([0, 0, 0, 1, 65535]), rng.choice([0, 0, 0, 1, 2 ** 40 + 5])))
+            # Rand is 64 bit: values whose low 32 (16, 8) bits are zero probe truncating comparisons
+            peer.send("key %d %d" % (rng.choice([0, 0, 0, 1, 65535, 65536 - 256]), rng.choice([0, 0, 0, 1, 2 ** 40 + 5, 2 ** 32, 2 ** 40, 0x2ABBCCDD00000000, 2 ** 61, 2 ** 62 - 2 ** 32, 2 ** 16, 256])))
     elif r < 0.50:
         peer.send("enc %d" % (1 if rng.random() < 0.65 else 0))
     elif r < 0.75:
